@@ -91,6 +91,66 @@ Definition feature_id (k : kind) (r : Z) : Z :=
   | _ => 0
   end.
 
+(* the panicking conversions FeatureID.NodeID/WayID/RelationID and
+   ElementID.NodeID/WayID/RelationID, dispatched by the kind asked for
+   (generated as partial functions: None = panic) *)
+Definition conv_feature (K : kind) (id : Z) : option Z :=
+  match K with
+  | KNode => GenIds.FeatureID_NodeID id
+  | KWay => GenIds.FeatureID_WayID id
+  | KRelation => GenIds.FeatureID_RelationID id
+  | _ => None
+  end.
+
+Definition conv_element (K : kind) (id : Z) : option Z :=
+  match K with
+  | KNode => GenIds.ElementID_NodeID id
+  | KWay => GenIds.ElementID_WayID id
+  | KRelation => GenIds.ElementID_RelationID id
+  | _ => None
+  end.
+
+(* ids of way nodes and relation members (generated; struct receivers became one parameter
+   per field read).  Member.FeatureID / ElementID panic on a member type that is not an element
+   kind: None. *)
+Definition way_node_feature_id (id : Z) : Z := GenIds.WayNode_FeatureID id.
+Definition way_node_element_id (id ver : Z) : Z := GenIds.WayNode_ElementID id ver.
+Definition member_feature_id (typ : string) (ref : Z) : option Z := GenIds.Member_FeatureID typ ref.
+Definition member_element_id (typ : string) (ref ver : Z) : option Z :=
+  GenIds.Member_ElementID typ ref ver.
+
+(* FeatureIDs.Counts:  for _, id := range ids { switch id.Type() { case TypeNode: nodes++ ... } }
+   ElementIDs.Counts:  for _, id := range ids { switch id & typeMask { case nodeMask: nodes++ ... } }
+   (hand model of the loops; the switch heads are the generated decoders / constants) *)
+Definition counts_step_feature (acc : Z * Z * Z) (id : Z) : Z * Z * Z :=
+  let '(n, w, r) := acc in
+  let t := GenIds.FeatureID_Type id in
+  if String.eqb t GenIds.c_TypeNode then (n + 1, w, r)
+  else if String.eqb t GenIds.c_TypeWay then (n, w + 1, r)
+  else if String.eqb t GenIds.c_TypeRelation then (n, w, r + 1)
+  else acc.
+Definition feature_ids_counts (ids : list Z) : Z * Z * Z :=
+  fold_left counts_step_feature ids (0, 0, 0).
+
+Definition counts_step_element (acc : Z * Z * Z) (id : Z) : Z * Z * Z :=
+  let '(n, w, r) := acc in
+  let tb := Z.land id GenIds.c_typeMask in
+  if tb =? GenIds.c_nodeMask then (n + 1, w, r)
+  else if tb =? GenIds.c_wayMask then (n, w + 1, r)
+  else if tb =? GenIds.c_relationMask then (n, w, r + 1)
+  else acc.
+Definition element_ids_counts (ids : list Z) : Z * Z * Z :=
+  fold_left counts_step_element ids (0, 0, 0).
+
+(* Elements.ElementIDs / Elements.FeatureIDs / Objects.ObjectIDs: the id of every element, in
+   order (nil for the empty list: an empty list here) *)
+Definition elements_element_ids (l : list (kind * Z * Z)) : list Z :=
+  map (fun '(k, r, v) => element_id k r v) l.
+Definition elements_feature_ids (l : list (kind * Z * Z)) : list Z :=
+  map (fun '(k, r, v) => feature_id k r) l.
+Definition objects_object_ids (l : list (kind * Z * Z)) : list Z :=
+  map (fun '(k, r, v) => object_id k r v) l.
+
 (* what a caller of the public API supplies for kind k: versionless kinds ignore v,
    bounds ignore r *)
 Definition norm_r (k : kind) (r : Z) : Z := match k with KBounds => 0 | _ => r end.
@@ -216,3 +276,61 @@ Definition parse_feature_id (s : string) : option Z :=
 (* "kind/ref" or "kind/ref:version" or "kind/ref:-" with kind known, ref/version decimal *)
 Definition count_char (c : ascii) (s : string) : nat :=
   List.length (split_on c s) - 1.
+
+(* decimal text as the property means it: optional sign, at least one digit, digits only *)
+Definition decimalb (s : string) : bool :=
+  match s with
+  | String "-" r | String "+" r => negb (String.eqb r "") && all_digits r
+  | _ => negb (String.eqb s "") && all_digits s
+  end.
+
+(* the number a decimal text denotes (Horner), independent of the library reader *)
+Definition digit_val (a : ascii) : Z := Z.of_N (N_of_ascii a) - 48.
+Fixpoint digits_val (acc : Z) (s : string) : Z :=
+  match s with
+  | EmptyString => acc
+  | String a r => digits_val (10 * acc + digit_val a) r
+  end.
+Definition dec_val (s : string) : Z :=
+  match s with
+  | String "-" r => - digits_val 0 r
+  | String "+" r => digits_val 0 r
+  | _ => digits_val 0 s
+  end.
+
+(* the shape named by the property, decided on the text alone: exactly one '/', a known kind
+   (an element kind for element and feature ids), at most one ':' (none for feature ids),
+   decimal parts ("-" allowed as version).  which: 0 object id, 1 element id, 2 feature id *)
+Definition shapeb (which : Z) (s : string) : bool :=
+  match split_on slash s with
+  | [t; rest] =>
+      match kind_of_name t with
+      | Some k =>
+          (if which =? 0 then true else is_element k) &&
+          (if which =? 2 then decimalb rest
+           else match split_on colon rest with
+                | [a] => decimalb a
+                | [a; b] => decimalb a && (String.eqb b "-" || decimalb b)
+                | _ => false
+                end)
+      | None => false
+      end
+  | _ => false
+  end.
+
+(* what a text of that shape denotes: kind, reference, version (0 when absent or "-") *)
+Definition denoted (which : Z) (s : string) : option (kind * Z * Z) :=
+  match split_on slash s with
+  | [t; rest] =>
+      match kind_of_name t with
+      | Some k =>
+          if which =? 2 then Some (k, dec_val rest, 0)
+          else match split_on colon rest with
+               | [a] => Some (k, dec_val a, 0)
+               | [a; b] => Some (k, dec_val a, if String.eqb b "-" then 0 else dec_val b)
+               | _ => None
+               end
+      | None => None
+      end
+  | _ => None
+  end.
